@@ -365,6 +365,34 @@ def orcVal (o : Orc) (input : V) (k : String) : Except E V :=
     | none => .error .oracleMiss
   else .error .oracleMiss
 
+/-! Objects are association lists; two lists that hold the same keys in a different order are the
+same JSON object. Oracle operands are compared up to that order (the driver parses oracle entries
+into key-sorted lists while the model builds objects in patch order). -/
+
+def insertField (k : String) (v : V) : List (String × V) → List (String × V)
+  | [] => [(k, v)]
+  | (k', v') :: rest => if k < k' then (k, v) :: (k', v') :: rest else (k', v') :: insertField k v rest
+
+mutual
+/-- keys of every object sorted (insertion sort), recursively -/
+def canon : V → V
+  | .arr l => .arr (canonList l)
+  | .obj m => .obj (canonFields m)
+  | v => v
+def canonList : List V → List V
+  | [] => []
+  | x :: xs => canon x :: canonList xs
+def canonFields : List (String × V) → List (String × V)
+  | [] => []
+  | (k, x) :: xs => insertField k (canon x) (canonFields xs)
+end
+
+/-- the oracle entry `o` holds the operand `v` under key `k` (up to the order of object keys) -/
+def orcOperand (o : Orc) (k : String) (v : V) : Bool :=
+  match o.get? k with
+  | some x => canon x == canon v
+  | none => false
+
 /-- fieldpath.merge: with either side nil the source replaces; otherwise mergo (oracle: a list of
 {"dst","src","out"|"err"} entries computed by the library for these very operands). -/
 def mergeVals (orc : List Orc) (dst src : V) : Except E V :=
@@ -372,7 +400,7 @@ def mergeVals (orc : List Orc) (dst src : V) : Except E V :=
   | .null, _ => .ok src
   | _, .null => .ok src
   | _, _ =>
-    match orc.find? (fun o => (o.get? "dst" == some dst) && (o.get? "src" == some src)) with
+    match orc.find? (fun o => orcOperand o "dst" dst && orcOperand o "src" src) with
     | none => .error .oracleMiss
     | some o => match o.get? "out" with
       | some v => .ok v
@@ -945,6 +973,9 @@ structure Patch where
   policy : Option Policy
   /-- mergo verdicts for the destination(s) of this patch -/
   mergeOrc : List Orc
+  /-- mergo verdicts for the apply option `withMergeOptions(toFieldPath, policy.mergeOptions)` this
+  patch contributes when its composed resource already exists (PTComposer.Compose, merge.go) -/
+  applyOrc : List Orc := []
   deriving Repr, Inhabited
 
 /-- Patch.GetType -/
